@@ -25,7 +25,7 @@ fn int(v: u64) -> Sx {
 }
 
 /// a dedup-eligible condition list for a coin of `amount` (sometimes deliberately not eligible)
-fn base_conditions(rng: &mut Rng, amount: u64, ph: &[u8; 32], coin_id: &[u8; 32], parent: &[u8; 32]) -> Vec<Sx> {
+fn base_conditions(rng: &mut Rng, amount: u64, ph: &[u8; 32], coin_id: &[u8; 32], parent: &[u8; 32], pk: &[u8]) -> Vec<Sx> {
     let mut v = vec![];
     // outputs: usually cover the amount
     let mut left = amount;
@@ -64,9 +64,15 @@ fn base_conditions(rng: &mut Rng, amount: u64, ph: &[u8; 32], coin_id: &[u8; 32]
             13 => cond(64, &[Sx::atom(coin_id)]),
             14 => cond(65, &[Sx::atom(ph)]),
             // not eligible on purpose
-            _ => match rng.below(3) {
+            _ => match rng.below(4) {
                 0 => cond(66, &[int(0), Sx::atom(b"m")]),
                 1 => cond(67, &[int(0), Sx::atom(b"m")]),
+                // any of the eight signature conditions (with outputs that cover the amount or not)
+                2 => {
+                    let n = 1 + rng.usize(12);
+                    let msg = rng.bytes(n);
+                    cond(43 + rng.below(8) as u8, &[Sx::atom(pk), Sx::atom(&msg)])
+                }
                 _ => cond(1, &[Sx::atom(b"x")]),
             },
         };
@@ -170,11 +176,19 @@ fn edit(rng: &mut Rng, conds: &[Sx]) -> (Vec<Sx>, &'static str) {
 }
 
 fn run_one(ctx: &Ctx, coin: &Coin, conds: &[Sx]) -> Option<OwnedSpendConditions> {
+    run_one_with(ctx, coin, conds, true)
+}
+
+/// `fingerprint == false`: plain mempool mode (the dedup flag is decided there as well)
+fn run_one_with(ctx: &Ctx, coin: &Coin, conds: &[Sx], fingerprint: bool) -> Option<OwnedSpendConditions> {
     let sb = SpendBundle::new(
         vec![CoinSpend::new(*coin, Program::new(puzzle(0).serialize().into()), Program::new(Sx::list(conds).serialize().into()))],
         Signature::default(),
     );
-    let flags = MEMPOOL_MODE | ConsensusFlags::COMPUTE_FINGERPRINT | ConsensusFlags::DONT_VALIDATE_SIGNATURE | ConsensusFlags::COST_CONDITIONS;
+    let mut flags = MEMPOOL_MODE | ConsensusFlags::DONT_VALIDATE_SIGNATURE | ConsensusFlags::COST_CONDITIONS;
+    if fingerprint {
+        flags |= ConsensusFlags::COMPUTE_FINGERPRINT;
+    }
     run_sb(ctx, &sb, 1 << 62, flags).ok().and_then(|(o, _)| o.spends.into_iter().next())
 }
 
@@ -206,7 +220,8 @@ fn case(ctx: &Ctx, rng: &mut Rng, rep: &mut Report) {
     let amount = if rng.bool() { rng.below(10_000) } else { *rng.pick(vcore::bundlegen::AMOUNT_POOL) };
     let coin = Coin::new(Bytes32::new(parent), Bytes32::new(ph), amount);
     let coin_id = vcore::sha256(&[&parent, &ph, &minimal_be_u64(amount)]);
-    let a = base_conditions(rng, amount, &ph, &coin_id, &parent);
+    let pk = ctx.keys.valid[rng.usize(ctx.keys.valid.len())].clone();
+    let a = base_conditions(rng, amount, &ph, &coin_id, &parent, &pk);
     let (b, kind) = edit(rng, &a);
     let (ra, rb) = (run_one(ctx, &coin, &a), run_one(ctx, &coin, &b));
     rep.eval();
@@ -233,6 +248,23 @@ fn case(ctx: &Ctx, rng: &mut Rng, rep: &mut Report) {
                     rep.violation("c19-fingerprint-on-ineligible-spend", "fingerprint reported for a spend that is not dedup-eligible", witness());
                 }
             }
+        }
+    }
+    // the flag as decided without fingerprint computation (a run that computes fingerprints can
+    // only be looked at when it accepts)
+    if let Some(s) = run_one_with(ctx, &coin, &a, false) {
+        rep.eval();
+        rep.count("plain-mempool-accepted");
+        let sig_or_msg = !may_be_dedup_eligible(0, &a);
+        if sig_or_msg {
+            rep.count("plain-mempool:signature-or-message-spend");
+        }
+        if s.flags & ELIGIBLE_FOR_DEDUP != 0 && !may_be_dedup_eligible(amount, &a) {
+            rep.violation(
+                "c19-dedup-flag-on-ineligible-spend",
+                "ELIGIBLE_FOR_DEDUP set (plain mempool mode) on a spend that emits a signature/message condition or creates less value than it consumes",
+                witness(),
+            );
         }
     }
     if let (Some(sa), Some(sb)) = (&ra, &rb) {
